@@ -209,7 +209,9 @@ def execute(plan: dict, scratch: str, replay: Optional[dict] = None) -> dict:
             sim.spawn(sim.proc("p0"), "init", init)
         ph.run()
         if sim.outcome == "ok":
-            _check_intervals(sim, ev, V, poll=0.01 + 0.05, label="flock")
+            # upper bound: the configured timeout plus one polling interval; the interval itself is an implementation
+            # detail, so a generous 1 s is allowed (what must not happen: no timeout, or one far beyond the setting)
+            _check_intervals(sim, ev, V, poll=1.0, label="flock")
             for o in sim.extra.get("flock_overlaps", []):
                 V.append({"clause": "K.flock_overlap", "msg": f"two live holders of {o['path']}: {o['holder']} and {o['second']}"})
         elif sim.outcome == "deadlock":
@@ -360,7 +362,7 @@ def _check_s3cas(sim, ev, V, paused):
             continue
         if e.get("timeout_raised"):
             el = e["ret_t"] - e["call_t"]
-            if not (30.0 - 1e-9 <= el <= 30.0 + 0.9 + 0.5) and not (e["timeout"] - 1e-9 <= el <= e["timeout"] + 1.4):
+            if not (e["timeout"] - 1e-9 <= el <= e["timeout"] + 3.0):
                 V.append({"clause": "K.timeout_time", "msg": f"s3cas: {e['actor']} TimeoutError after {el:.2f}s (timeout {e['timeout']}s)"})
 
 
